@@ -5,6 +5,11 @@ Local Open Scope N_scope.
 
 (* spec_enc is the serialization written from doc/about-qimessaging.md.  For every type and
    every well-typed value (maps in whatever order the encoder iterates them): *)
+(* No restriction on the widths of container elements: lists of void, of empty tuples, of
+   lists of those, maps with zero-width entries ... are covered (the count is then followed by
+   nothing, and the decoders return that many copies of the only value of the element type).
+   wf_ty only says that struct and field names are identifiers; types nested in dynamic
+   values need it for their signature to be parsed back. *)
 
 (* the reflection encoder writes exactly the documented bytes *)
 Theorem C03_refl_enc : forall c v t, refl_drop8 c = false -> has_ty v t = true -> refl_domain t = true ->
@@ -14,20 +19,20 @@ Print Assumptions C03_refl_enc.
 
 (* the signature-driven reader accepts exactly those bytes and returns them unchanged *)
 Theorem C03_sig_read : forall c v t fuel rest, value_reader_no_len c = false ->
-  good_ty t = true -> has_ty v t = true -> (dyn_depth v <= fuel)%nat ->
+  wf_ty t = true -> has_ty v t = true -> (dyn_depth v <= fuel)%nat ->
   sig_read parse_opt c fuel t (spec_enc v ++ rest) = ROk (spec_enc v, rest).
 Proof. exact sig_read_spec_top. Qed.
 Print Assumptions C03_sig_read.
 
 (* the reflection decoder recovers the value (lists/maps within its 4096 bound, distinct keys) *)
 Theorem C03_refl_dec : forall c v t rest, refl_drop8 c = false ->
-  good_ty t = true -> has_ty v t = true -> refl_domain t = true -> lens_ok v = true -> keys_nodup v ->
+  wf_ty t = true -> has_ty v t = true -> refl_domain t = true -> lens_ok v = true -> keys_nodup v ->
   refl_dec c tval_eqb t (spec_enc v ++ rest) = ROk (v, rest).
 Proof. exact refl_dec_spec. Qed.
 Print Assumptions C03_refl_dec.
 
 (* the typed decoder of the documented format (what generated code implements) is its inverse *)
-Theorem C03_spec_dec : forall v t fuel rest, good_ty t = true -> has_ty v t = true -> (dyn_depth v <= fuel)%nat ->
+Theorem C03_spec_dec : forall v t fuel rest, wf_ty t = true -> has_ty v t = true -> (dyn_depth v <= fuel)%nat ->
   spec_dec parse_opt fuel t (spec_enc v ++ rest) = ROk (v, rest).
 Proof. exact spec_dec_enc_top. Qed.
 Print Assumptions C03_spec_dec.
@@ -52,3 +57,6 @@ Print Assumptions C03_refuted_list_over_4096.
 Example C03_nonvacuous :
   good_ty ex_ty = true /\ has_ty ex_val ex_ty = true /\ dyn_depth ex_val = 1%nat /\ (List.length (spec_enc ex_val) = 39)%nat.
 Proof. exact ex_val_ok. Qed.
+Example C03_nonvacuous_zero_width :
+  wf_ty zw_ty = true /\ wfz zw_ty = false /\ has_ty zw_val zw_ty = true /\ dyn_depth zw_val = 1%nat /\ (List.length (spec_enc zw_val) = 42)%nat.
+Proof. exact zw_val_ok. Qed.
